@@ -11,7 +11,7 @@ use crate::verif::util::{fnv_str, mix, Rng, J};
 use crate::verif::world::Violation;
 
 const PATHS : &[&str] = &[
-    "a", "b", "ab", "a b", "a:b", ":a", "a:", "x/", "d/e", "d/:", "d/e f", "d/e/f", "-c", "gcc", "é", "a.b", "a/z", " lead", "trail ",
+    "a", "b", "c", "ab", "bc", "abc", "a b", "a:b", ":a", "a:", "x/", "d/e", "d/:", "d/e f", "d/e/f", "-c", "gcc", "é", "a.b", "a/z", " lead", "trail ",
     "a\r", "d", "e", "f", "o.o", "main.c", "src/main.c", "src/:", "out/main", ";", "--", "0", "Z",
 ];
 
@@ -51,8 +51,45 @@ fn canon(r : &Rule) -> (BTreeSet<String>, BTreeSet<String>, Vec<String>)
 fn mutate(rng : &mut Rng, a : &Rule) -> (Rule, &'static str)
 {
     let mut b = a.clone();
-    let kind = match rng.below(14)
+    let kind = match rng.below(16)
     {
+        14 | 15 =>
+        {
+            // the same characters cut differently: [a, bc] vs [ab, c] - the entries written back to back spell the same string
+            let list = if rng.chance(1, 2) { &mut b.targets } else { &mut b.sources };
+            let mut sorted = list.clone();
+            sorted.sort();
+            let joined : String = sorted.concat();
+            let chars : Vec<char> = joined.chars().collect();
+            let parts = sorted.len();
+            let mut done = false;
+            if parts >= 2 && chars.len() > parts
+            {
+                for _ in 0..20
+                {
+                    let mut cuts : Vec<usize> = (1..chars.len()).collect();
+                    rng.shuffle(&mut cuts);
+                    cuts.truncate(parts - 1);
+                    cuts.sort();
+                    let mut pieces : Vec<String> = vec![];
+                    let mut start = 0;
+                    for c in cuts.iter().chain(std::iter::once(&chars.len()))
+                    {
+                        pieces.push(chars[start..*c].iter().collect());
+                        start = *c;
+                    }
+                    let mut check = pieces.clone();
+                    check.sort();
+                    if check == pieces && pieces != sorted && pieces.iter().all(|p| p.len() > 0 && !p.starts_with('/') && !p.ends_with('/') && !p.contains("//"))
+                    {
+                        *list = pieces;
+                        done = true;
+                        break;
+                    }
+                }
+            }
+            if done { "same-characters-cut-differently" } else { "none" }
+        },
         0 => { rng.shuffle(&mut b.targets); rng.shuffle(&mut b.sources); "permute-lists" },
         1 => { if b.targets.len() > 1 { let t = b.targets.pop().unwrap(); b.sources.push(t); } "move-target-to-sources" },
         2 => { if b.sources.len() > 1 { let s = b.sources.pop().unwrap(); b.command.insert(0, s); } "move-source-to-command" },
